@@ -247,7 +247,50 @@ def _(A, R):
 
 s.setup = lambda ctx, st: (F.install_axioms(), st.ghost.__setitem__("index", ctx.index))
 
-UNITS = ["codebasin.config:load_database", "codebasin:CompileCommand.is_supported"]
+# ---------------------------------------------------------------- CompileCommand.arguments
+# The `arguments` form is returned as it is (the empty list included); only when it is absent is the `command` string
+# split, by shlex.split (assumed: a function of the string; its POSIX conformance is a recorded finding of C11).
+from pyvc.stubs import stub as _stub      # noqa: E402
+
+_shlex = z3.Function("shlex.split", z3.StringSort(), SeqOf(ARG).sort())
+
+
+@_stub("shlex.split", assumed="shlex.split(s) is a function of the string s (its quoting rules are CPython's, not verified)")
+def _shlex_split(ex, st, pos, kw, node, star):
+    v = ops.deref(st, pos[0])
+    if isinstance(v, VOpt):
+        return ex.guarded(st, [(v.is_none(), Exc("ValueError", node.lineno, "s argument must not be None")),
+                               (z3.Not(v.is_none()), SeqOf(ARG).wrap(_shlex(v.get().t)))])
+    if not isinstance(v, VStr) or len(pos) != 1 or kw:
+        from pyvc.state import Unsupported
+        raise Unsupported("shlex.split of a non-string / with options")
+    return [(st, SeqOf(ARG).wrap(_shlex(v.t)))]
+
+
+ar = contract("codebasin:CompileCommand.arguments", props=["C13", "C11"])
+ar.param("self", ObjSpec("CompileCommand", {"_arguments": Opt(SeqOf(ARG)), "_command": Opt(STR)}))
+
+
+@ar.requires
+def _(A):
+    return [("one of the two forms is present (checked by __init__)",
+             z3.Or(z3.Not(A.self._arguments.is_none()), z3.Not(A.self._command.is_none())))]
+
+
+@ar.ensures
+def _(A, R):
+    a, c = A.self._arguments, A.self._command
+    want = SeqOf(ARG).wrap(_shlex(c.get().t))
+    r = ops.deref(R.st, R.result)
+    some, seq = (z3.Not(r.is_none()), r.get()) if isinstance(r, VOpt) else (z3.BoolVal(True), r)
+    if not isinstance(seq, VSeq):
+        return [("the result is a list of words", z3.BoolVal(False))]
+    return [("the arguments form is returned unchanged whenever it is present - an empty list too",
+             z3.Implies(z3.Not(a.is_none()), z3.And(some, seq.eq(a.get())))),
+            ("otherwise the command string is split",
+             z3.Implies(a.is_none(), z3.And(some, seq.eq(want))))]
+
+UNITS = ["codebasin.config:load_database", "codebasin:CompileCommand.is_supported", "codebasin:CompileCommand.arguments"]
 ASSUMPTIONS = [
     "A4 os.path.{isabs,abspath,join,exists,basename} are pure functions/predicates of the name on a static file system",
     "CompilationDatabase.from_file and ArgumentParser(...).parse_args are opaque (assumed to return a list of commands / "
